@@ -4,6 +4,7 @@ import (
 	"crypto/tls"
 	"errors"
 	"fmt"
+	"strings"
 	"time"
 )
 
@@ -155,4 +156,22 @@ func (a *Asker) Ask(kind string, q []byte, wait, linger time.Duration) *AskResul
 	}
 	res.Err = fmt.Errorf("unknown listener kind %s", kind)
 	return res
+}
+
+// AskPatient is Ask for checks whose subject is not liveness. A query that gets no response within wait - a lost
+// datagram, a handshake that timed out on a busy machine - is asked again, once, after a pause and with three times the
+// patience, before the caller sees "no response". (C03 and C01 own the liveness oracles and do not use this.)
+func (a *Asker) AskPatient(kind string, q []byte, wait time.Duration) *AskResult {
+	res := a.Ask(kind, q, wait, 0)
+	if res.Err == nil && len(res.Resps) > 0 {
+		return res
+	}
+	if res.Err != nil {
+		e := res.Err.Error()
+		if !strings.Contains(e, "timeout") && !strings.Contains(e, "deadline exceeded") && !strings.Contains(e, "timed out") {
+			return res
+		}
+	}
+	time.Sleep(300 * time.Millisecond)
+	return a.Ask(kind, q, 3*wait, 0)
 }
